@@ -64,7 +64,7 @@ def edit_case(c):
     from ruamel.yaml import YAML
     os.makedirs("ed", exist_ok=True)
     base = dict(base="OperatorTemplate", equations=c["eqs"], variables=c["vars"])
-    derived = dict(base="base_op", equations=c["edit"])
+    derived = dict(base="base_op", equations=dict(c["edit"]))
     if c.get("var_updates"):
         derived["variables"] = c["var_updates"]
     with open("ed/t.yaml", "w") as fh:
@@ -121,6 +121,13 @@ def edit_cases():
     out.append(dict(tag="E6-remove-term", eqs=[E[0]], vars=V, edit={"remove": ["+ k*m_in2"]}, expected_vars=list(allv - {"k", "m_in2"})))
     out.append(dict(tag="E7-replace-r-with-rr-present", eqs=[E[1]], vars={k: V[k] for k in ("r", "rr", "k")}, edit={"replace": {"r": "r*g"}},
                     var_updates={"g": 0.5}, expected_vars=["r", "rr", "k", "g"], known_replace=True))
+    from collections import OrderedDict
+    out.append(dict(tag="E9-append-listed-before-replace", eqs=["d/dt * r = -r/tau"], vars={"r": "output(0.1)", "tau": 2.0},
+                    edit=OrderedDict([("append", "- k*r"), ("replace", {"r": "(r - r_shift)"})]), var_updates={"k": 1.0, "r_shift": 0.5},
+                    expected_vars=["r", "tau", "k", "r_shift"]))
+    out.append(dict(tag="E10-prepend-and-remove-listed-first", eqs=["d/dt * r = -r/tau + k*rr"], vars={"r": "output(0.1)", "tau": 2.0, "k": 1.0, "rr": 2.0},
+                    edit=OrderedDict([("prepend", ""), ("append", "+ rr"), ("remove", ["+ k*rr"]), ("replace", {"tau": "(2.0*tau)"})]),
+                    expected_vars=["r", "tau", "rr"]))
     out.append(dict(tag="E8-two-adds-two-loads", eqs=[E[0]], vars=V, edit={"add": ["d/dt * a = r - a", "d/dt * b = a - b"]},
                     var_updates={"a": "variable(0.0)", "b": "variable(0.0)"}, expected_vars=list(allv | {"a", "b"})))
     return out
@@ -146,6 +153,42 @@ def two_spelling_case(c):
         except Exception as exn:
             fails.append(dict(clause="loading the same derived template through another path spelling succeeds",
                               observed=f"{spelling}: {type(exn).__name__}: {exn}"))
+    return dict(status="violated" if fails else "ok", fails=fails[:2])
+
+
+def cross_file_case(c):
+    """A circuit whose `nodes:` mapping lists a FULL path into another file before a RELATIVE name that exists in both files."""
+    import numpy as np
+    from ruamel.yaml import YAML
+    from pyrates import CircuitTemplate
+    from rtc import mdl, oracle
+    os.makedirs("xf", exist_ok=True)
+    open("xf/__init__.py", "w").close()
+
+    def opdef(tau):
+        return dict(base="OperatorTemplate", equations=["d/dt * r = -r/tau + r_in"], variables={"r": "output(0.4)", "tau": tau, "r_in": "input(0.25)"})
+    base_file = dict(op_b=opdef(5.0), pop=dict(base="NodeTemplate", operators=["op_b"]), other=dict(base="NodeTemplate", operators=["op_b"]))
+    local_file = dict(op_l=opdef(2.0), pop=dict(base="NodeTemplate", operators=["op_l"]),
+                      net=dict(base="CircuitTemplate", nodes={"src": "xf.base.other", "tgt": "pop"},
+                               edges=[["src/op_b/r", "tgt/op_l/r_in", None, {"weight": 1.5}]]))
+    for name, d in (("base", base_file), ("local", local_file)):
+        with open(f"xf/{name}.yaml", "w") as fh:
+            YAML().dump(d, fh)
+    sys.path.insert(0, os.getcwd())
+    li = lambda nm, tau: dict(name=nm, eqs=[["r", "de", ["+", ["neg", ["/", ["var", "r"], ["var", "tau"]]], ["var", "r_in"]]]],
+                              vars={"r": ["output", 0.4], "tau": ["const", tau], "r_in": ["input", 0.25]})
+    # expected: `tgt: pop` is the pop of local.yaml (operator op_l, tau = 2.0); `src` is base.yaml's `other` (op_b, tau = 5.0)
+    model = dict(ops={"op_b": li("op_b", 5.0), "op_l": li("op_l", 2.0)}, nodes={"src": dict(ops=["op_b"]), "tgt": dict(ops=["op_l"])},
+                 edges=[dict(src="src/op_b/r", tgt="tgt/op_l/r_in", w=1.5, d=None, s=None)])
+    fails = []
+    try:
+        tpl = CircuitTemplate.from_yaml("xf.local.net")
+        comp = oracle.compile_model(model, vectorize=False, tpl=tpl)
+        fails = oracle.check_vector_field(model, comp, np.random.default_rng(1), n_states=2, n_param_draws=0)
+        for f in fails:
+            f["clause"] = "[yaml, relative reference after a full path] " + f["clause"]
+    except Exception as exn:
+        fails = [dict(clause="a relative template reference resolves against the circuit's own file", observed=f"{type(exn).__name__}: {exn}")]
     return dict(status="violated" if fails else "ok", fails=fails[:2])
 
 
@@ -179,6 +222,8 @@ def dispatch(c):
         return two_spelling_case(c)
     if k == "same_name_sub":
         return same_name_subcircuits(c)
+    if k == "cross_file":
+        return cross_file_case(c)
     return cases.case_fn(c)
 
 
@@ -196,6 +241,7 @@ def families(tier, seed):
     for c in edit_cases():
         out.append(dict(kind="edit", features=dict(edit=True, known_replace=c.get("known_replace", False)), **c))
     out.append(dict(tag="Y1-two-path-spellings", features={}, kind="two_spellings"))
+    out.append(dict(tag="Y4-relative-reference-after-full-path", features={}, kind="cross_file"))
     # hierarchy without per-node overrides: two sub-circuits that differ by one edge
     base = gen.op_li("op", x="r", ins=("r_in",), tau=2.0, x0=0.4)
     i1 = gen.model([base], {"p1": dict(ops=["op"]), "p2": dict(ops=["op"])}, [gen.edge("p1/op/r", "p2/op/r_in", 1.5)])
